@@ -69,6 +69,8 @@ def register_pandas_backends(
 
     for t in backend_types.index_datatypes:
         Index.register_backend(t, IndexBackend)
+        # coercing the plain index of a frame with a MultiIndex schema
+        MultiIndex.register_backend(t, MultiIndexBackend)
 
     for t in backend_types.multiindex_datatypes:
         MultiIndex.register_backend(t, MultiIndexBackend)
